@@ -72,7 +72,7 @@ Load ==
             ELSE InitState(AFS)
       A0 == [ZeroAcc EXCEPT !.costs = IF seg.opening.has THEN D(seg.opening.c) ELSE RZero]
   IN  [k |-> 1, i |-> 1, R |-> Prepare(rows, seg.opening.has), REG |-> RegOf(seg),
-       S |-> S0, L |-> S0, pend |-> {}, A |-> A0, AL |-> A0, fS |-> FALSE, fL |-> FALSE,
+       S |-> S0, L |-> S0, pend |-> {}, weak |-> FALSE, A |-> A0, AL |-> A0, fS |-> FALSE, fL |-> FALSE,
        qual |-> Qualifies(seg)]
 
 (***************************************************************************)
@@ -94,6 +94,11 @@ ForwardMargin(R, i, P) ==
                ELSE LET x == CHOOSE x \in U : TRUE IN RMin(RunAff(R, i, P, R[x].af, x), mn(U \ {x}))
   IN mn(T)
 
+\* who "still holds shares" at the end of the superficial-loss period of sale i is decided by a residue of
+\* the order of 1e-27 shares (left or removed by decimal rounding of an earlier or later row)
+ResidueSensitive(R, i, P) ==
+  \E a \in DOMAIN P.sh : ~RIsZero(Eop(R, i, P, a)) /\ RLe(RAbs(Eop(R, i, P, a)), Eps)
+
 \* Could decimal rounding noise alone explain acb deciding row i the other way round?
 Borderline(mm, i) ==
   LET R == mm.R  S == mm.S  L == mm.L  REG == mm.REG
@@ -111,6 +116,7 @@ Borderline(mm, i) ==
                       /\ RClose(RAbs(RSub(ComputedSfl(R, i, c.S, c.raw), t.sflv)), MaxSflDiff, Eps2)
                    \/ /\ RNegative(c.raw) /\ ~AllAdjDecimal(R, i)
                       /\ RLe(RAbs(ForwardMargin(R, i, c.S)), Eps)
+                   \/ RNegative(c.raw) /\ ResidueSensitive(R, i, c.S)
         [] OTHER -> FALSE
 
 (***************************************************************************)
@@ -137,11 +143,22 @@ Finish(mm2) ==
   Chk(ConserveOK(mm2), "conserve", "gains so far differ from proceeds - costs + roc + cost base held",
   Ok(mm2)))
 
+\* A residue of 1e-27 shares left (or removed) by decimal rounding decides qualitative questions - who still
+\* holds shares at the end of a superficial-loss period, whether a return of capital has anything to act on.
+\* Where acb reports that an affiliate holds nothing and the exact balance is within the band of nothing (or
+\* the other way round), the model continues from the reported balance.
+Snap(S, d) ==
+  LET a == d.af  x == D(d.sh) IN
+  IF ~REq(x, S.sh[a]) /\ (RIsZero(x) \/ RIsZero(S.sh[a])) /\ RClose(x, S.sh[a], Eps)
+  THEN [S EXCEPT !.sh[a] = x, !.all = RAdd(RSub(@, S.sh[a]), x)]
+  ELSE S
+
 \* an automatically generated adjustment row
 StepInjected(mm, d) ==
   LET a == d.af
       cand == { x \in mm.pend : x.af = a }
-  IN  Chk(d.inj /\ d.act = "Sfla" /\ cand # {}, "adjust",
+  IN  IF ~(d.inj /\ d.act = "Sfla" /\ cand # {}) /\ mm.weak THEN Ambig("who receives the adjustment is decided by a rounding residue of shares") ELSE
+      Chk(d.inj /\ d.act = "Sfla" /\ cand # {}, "adjust",
           "expected an automatic adjustment for one of the buying affiliates, got " \o d.act \o " for " \o a,
       LET x == CHOOSE x \in cand : TRUE
           S2 == ApplyAdj(mm.S, {x})
@@ -166,6 +183,7 @@ StepRow(mm0, d) ==
       i  == mm.i
       a  == d.af
   IN
+  IF d.inj /\ mm.weak THEN Ambig("who receives the adjustment is decided by a rounding residue of shares") ELSE
   Chk(~d.inj, "adjust", "automatic adjustment that the rules do not call for",
   Chk(i <= Len(R), "order", "more transactions reported than rows given",
   LET t == R[i] IN
@@ -176,7 +194,16 @@ StepRow(mm0, d) ==
   Chk(d.idx = t.idx /\ d.act = t.act /\ d.af = t.af /\ d.sd = t.sd, "order",
       "expected row " \o ToString(t.idx) \o " " \o t.act \o " " \o t.af \o ", acb processed row "
         \o ToString(d.idx) \o " " \o d.act \o " " \o a,
-  LET s == Step(mm.S, mm.REG, R, i) IN
+  \* a sale that empties the position in acb's decimals but leaves a residue of 1e-27 shares in exact
+  \* arithmetic (or the other way round) is read as selling exactly down to the reported balance: the residue
+  \* would otherwise decide who "still holds shares" at the end of the superficial-loss period
+  LET s0 == Step(mm.S, mm.REG, R, i)
+      resid == /\ t.act = "Sell" /\ s0.ok /\ ~REq(D(d.sh), s0.S.sh[a])
+               /\ (RIsZero(D(d.sh)) \/ RIsZero(s0.S.sh[a])) /\ RClose(D(d.sh), s0.S.sh[a], Eps)
+      Rr == IF resid THEN [R EXCEPT ![i].q = RSub(mm.S.sh[a], D(d.sh))] ELSE R
+      s == IF resid THEN Step(mm.S, mm.REG, Rr, i) ELSE s0
+      te == Rr[i]
+  IN
   IF ~s.ok
   THEN (IF Borderline(mm, i) THEN Ambig(s.why)
         ELSE FailV(IF s.why \in {"sfl-mismatch", "sfl-without-loss"} THEN "sflreject" ELSE "reject",
@@ -186,23 +213,28 @@ StepRow(mm0, d) ==
       sflI == IF d.hasSfl THEN D(d.sfl) ELSE RZero
       rawI == RAdd(D(d.gain), sflI)
       implSup == d.hasSfl /\ ~RIsZero(D(d.sfl))
+      \* a superficial part below the band (a residue of 1e-27 shares left by decimal rounding) that acb
+      \* rounds to nothing is not a disagreement: the loss is then taken as reported in full
+      negl == s.superficial /\ ~implSup /\ ~s.manual /\ RLe(RAbs(s.sfl), Eps)
+      sup == s.superficial /\ ~negl
   IN
   Chk(RClose(D(d.sh), S2.sh[a], Eps), "arith", "share balance " \o RStr(D(d.sh)) \o " expected " \o RStr(S2.sh[a]),
   Chk(RClose(D(d.all), S2.all, Eps), "arith", "all-affiliate balance " \o RStr(D(d.all)) \o " expected " \o RStr(S2.all),
   Chk(mm.REG[a] \/ RClose(D(d.acb), S2.acb[a], Eps), "arith", "cost base " \o RStr(D(d.acb)) \o " expected " \o RStr(S2.acb[a]),
   Chk(d.hasGain = s.hasGain, "arith", "capital gain present/absent",
   Chk(~s.hasGain \/ RClose(rawI, s.raw, Eps), "arith", "gain before denial " \o RStr(rawI) \o " expected " \o RStr(s.raw),
-  IF implSup # s.superficial
+  IF implSup # sup
   THEN (IF Borderline(mm, i) THEN Ambig("loss decision within rounding noise")
         ELSE FailV("sfl", IF s.superficial THEN "loss is superficial (ratio " \o RStr(s.ratio) \o ") but was reported in full"
                           ELSE "loss is not superficial but was denied"))
   ELSE
-  Chk(~s.superficial \/ RClose(sflI, s.sfl, Eps2), "sfl", "denied amount " \o RStr(sflI) \o " expected " \o RStr(s.sfl),
-  Chk(~s.superficial \/ s.manual \/ RClose(RDiv(D(d.rn), D(d.rd)), s.ratio, Eps), "sfl",
+  Chk(~sup \/ RClose(sflI, s.sfl, Eps2), "sfl", "denied amount " \o RStr(sflI) \o " expected " \o RStr(s.sfl),
+  Chk(~sup \/ s.manual \/ RClose(RDiv(D(d.rn), D(d.rd)), s.ratio, Eps), "sfl",
       "ratio " \o RStr(D(d.rn)) \o " / " \o RStr(D(d.rd)) \o " expected " \o RStr(s.ratio),
   Chk(~s.hasGain \/ RClose(D(d.gain), s.gain, Eps2), "sfl", "reported gain " \o RStr(D(d.gain)) \o " expected " \o RStr(s.gain),
-  Finish([mm EXCEPT !.k = @ + 1, !.i = @ + 1, !.S = S2, !.L = LogInto(mm.L, d), !.pend = s.adj,
-                    !.A = AccStep(mm.A, mm.S, t, IF s.hasGain THEN s.gain ELSE RZero),
+  Finish([mm EXCEPT !.k = @ + 1, !.i = @ + 1, !.S = Snap(IF negl THEN ApplyAdj(S2, s.adj) ELSE S2, d), !.L = LogInto(mm.L, d), !.pend = IF negl THEN {} ELSE s.adj,
+                    !.weak = te.act = "Sell" /\ s.hasGain /\ RNegative(s.raw) /\ ResidueSensitive(Rr, i, S2),
+                    !.A = AccStep(mm.A, mm.S, te, IF s.hasGain THEN s.gain ELSE RZero),
                     !.AL = AccStep(mm.AL, mm.L, t, IF d.hasGain THEN D(d.gain) ELSE RZero),
                     !.fS = @ \/ s.over, !.fL = @ \/ (d.hasSfl /\ d.over)]))))))))))))))
 
